@@ -182,6 +182,10 @@ class Interp:
             return len(v.items if isinstance(v, PyList) else v) > 0
         if isinstance(v, (FuncRef, BoundMethod, Closure)):
             return True
+        from .stmt import IterV
+        if isinstance(v, IterV):
+            dom = v.domain(self, st)
+            return (len(dom[1]) > 0) if dom[0] == "concrete" else (dom[1] != 0)
         raise OutOfSubset(f"truthiness of {v!r}")
 
     def as_bool_val(self, t):
